@@ -441,6 +441,11 @@ func (gm *gameMon) runGame(r *rand.Rand, zt *board.ZobristTable, start ref.Pos, 
 	}
 	gm.tracks = []*track{t0}
 	gm.observe(t0, "setup")
+	gm.continueGame(r, o)
+}
+
+// continueGame runs the randomised session on the tracks already set up.
+func (gm *gameMon) continueGame(r *rand.Rand, o gameOpts) {
 	for step := 0; step < o.plies; step++ {
 		t := gm.tracks[r.Intn(len(gm.tracks))]
 		x := r.Float64()
